@@ -16,7 +16,7 @@ RULE = ("Two generated configurations A and B per case (bar-shaped episodes over
         "reset(episode_length=k)) and an interleaving SCHEDULE (0/1 list). "
         "Oracle: bitwise trace equality (observations, rewards, done, executed trades with prices and fees, holdings, NLV, clock, recorder log): "
         "(1) fresh A alone = T_A; (2) A after the prefix, reset, same actions = T_A; (3) a second fresh build = T_A; (4) A and B stepped "
-        "alternately per schedule produce T_A and T_B. All environments of a case are built before any is stepped. Non-trivial = non-empty prefix "
+        "alternately per schedule produce T_A and T_B; (2b, every other case) a further episode on A started by a reset that directly follows an unstepped reset = T_A. All environments of a case are built before any is stepped. Non-trivial = non-empty prefix "
         "different from the replayed actions, schedule with >= 2 alternations, and a configuration with state carried in a feature or a chain.")
 ASSUMPTIONS = [
     "schedules are sequential interleavings of reset/step calls (the library is single-threaded)",
@@ -224,6 +224,14 @@ def run(case):
     d = first_diff(ta, Stepper(A1, a["actions"], case["seed_a"]).run())
     if d:
         res.fail("replaying the same actions after reset (prefix: %s) gives a different trace: %s" % (pk, d))
+    if len(case["schedule"]) % 2 == 0:
+        # (2b) third (or later) episode on the same environment, started by a reset that directly follows an unstepped reset
+        np.random.seed(case["seed_a"] + 2)
+        env.reset(fold)
+        d = first_diff(ta, Stepper(A1, a["actions"], case["seed_a"]).run())
+        if d:
+            res.fail("third episode on the same environment, after a reset that was itself followed by a reset, differs: " + d)
+        res.tag("third-episode-after-double-reset")
     # (4) interleaving
     sa = Stepper(A3, a["actions"], case["seed_a"])
     sb = Stepper(B3, b["actions"], case["seed_b"])
